@@ -1,24 +1,65 @@
 """C10 — covariance with amplitude and sampling-rate units (pipeline model + metamorphic search)."""
 from harness import pipeline
-from harness.pipeline import COQ_HEADER, COQ_RUNNER, COQ_TYPES, SHARD, coq_case, kind_of, TRUST
+from harness.pipeline import COQ_HEADER, COQ_RUNNER, COQ_TYPES, SHARD, coq_case, kind_of, extra_evidence, TRUST
 
 PROP = 'C10'
 PROPS_FILE = 'Props/C10.v'
-RULE = ('compute_features on generated signals at 8 sampling rates; metamorphic replays sig*2^k (k in -100..100, so that absolute tolerances hidden in the code show) and '
-        '(c*fs, c*f_range) for c in {2, 4, 1/2}; each base table compared with the Coq pipeline model (which has no fs '
+RULE = ('compute_features on generated signals at 8 sampling rates (the wide C01 stream: off-band / narrow / wide bands, '
+        'non-integer fs, int64 samples, empty option dictionaries, option keys in random order, detector filter_kwargs); '
+        'metamorphic replays sig*2^k (k in -100..100, so that absolute tolerances hidden in the code show), in half of the '
+        'cases on the SAME ndarray object rescaled in place (sig *= 2^k, restored afterwards), and (c*fs, c*f_range) for c '
+        'in {2, 4, 1/2} with every setting given in seconds (n_seconds of either filter, min_burst_duration) divided by c; '
+        '35 % of the cases are preceded (and some interleaved) in the same process by 1-4 calls of the public helpers of '
+        'bycycle.utils.dataframes with every documented flag value on scratch tables (`history`). Column sets of the base, '
+        'rescaled and fs-replayed tables compared; each base table compared with the Coq pipeline model (which has no fs '
         'argument at all); non-trivial = >= 3 rows and a label of each value')
 ASSUMPTIONS = ['power-of-two amplitude factors (exact in binary64 absent over/underflow)',
-               'filter length given in cycles for the fs replay (n_seconds cases skip it)',
+               'known finding (known_findings.txt): cases whose filters neurodsp accepts at (fs, f_range) but rejects at '
+               '(c*fs, c*f_range) (its frequency-response check has a fixed 0.25 Hz resolution) are tagged '
+               'kernel_rejects_fs_replay; the replay raising there is reported as KNOWN-FINDING',
+               'fs replay: filter lengths given in cycles as they are; lengths / durations given in seconds are divided by '
+               'the same constant (same number of samples)',
                'band_amp and the filter taps may differ in the last bits under fs scaling: tables compared at 1e-7']
 
 
 def cases(rng, tier):
-    n = 90 if tier == 'quick' else 900
+    n = 135 if tier == 'quick' else 1350
     out = []
     for _ in range(n):
-        out.append(pipeline.gen_case(rng, tier, extra={'scale_pow': rng.choice([-100, -60, -40, -30, -20, -7, -1, 1, 3, 10, 20, 40, 100]),
-                                                        'fs_mult': rng.choice([2, 4, 0.5])}))
+        c = pipeline.gen_case(rng, tier, wide=True, amp_wide=True,
+                              extra={'scale_pow': rng.choice([-100, -60, -40, -30, -20, -7, -1, 1, 3, 10, 20, 40, 100]),
+                                     'fs_mult': rng.choice([2, 4, 0.5])})
+        c['scale_inplace'] = rng.random() < 0.5
+        if rng.random() < 0.35:
+            c['history'] = pipeline.gen_history(rng)
+        # KNOWN FINDING (known_findings.txt, DESIGN section 5): neurodsp checks a filter's frequency response at a fixed
+        # resolution of 0.25 Hz, so a band with a very low edge is accepted at (fs, f_range) and rejected with
+        # "Invalid transition band" at (c*fs, c*f_range); compute_features then raises on the replay only.  Exactly the
+        # cases in which the reference kernel accepts every filter of the analysis at the base rate and rejects one at
+        # the replay rate are tagged; their fs replay is still run and judged.
+        if not fs_replay_accepted(c):
+            c['kernel_rejects_fs_replay'] = True
+        out.append(c)
+    # cases that carry their own history first: a failure caused by state that a history leaves behind is then reported
+    # (lowest index first) on a case that reproduces it when replayed alone in a fresh process
+    out.sort(key=lambda c: 0 if c.get('history') else 1)
     return out
+
+
+def fs_replay_accepted(c):
+    from harness import ref
+    rs = pipeline.resolved(c)
+    m, n = c['fs_mult'], len(c['sig'])
+    filters = [rs['fk'], {'n_cycles': 3}]                       # extrema filter, envelope of band_amp
+    if c['method'] == 'amp':
+        filters.append(rs['bk_filter_kwargs'] or {'n_cycles': 3})
+    for fk in filters:
+        fk2 = dict(fk, n_seconds=fk['n_seconds'] / m) if 'n_seconds' in fk else fk
+        base = ref.filter_accepts(n, c['fs'], c['f_range'], fk)
+        repl = ref.filter_accepts(n, c['fs'] * m, [c['f_range'][0] * m, c['f_range'][1] * m], fk2)
+        if base and not repl:
+            return False
+    return True
 
 
 run_impl = pipeline.run_pipe
